@@ -40,6 +40,8 @@ var c19Seeds = []string{
 	// block, an entry that a replacement empties), markers whose name is white space outside ASCII
 	"##!> cmdline unix\nls\n##!> cmdline windows\n##!<\n##!<\n", "##!> cmdline unix\n##!> cmdline unix\n##!<\n##!<\n", "##!> cmdline unix\n##!> assemble\n##!<\nls\n##!<\n", "##!> cmdline unix\n##!> include marks -- @ \"\"\n##!<\n", "##!> cmdline windows\nx\n##!> include-except marks ok -- ~ \"\" @ \"\"\n##!<\n",
 	"##!> assemble\n##!> include marks -- @ \"\" ~ \"\"\n##!=>\nb\n##!<\n", "##!=> \x0b\n", "##!=< \x0b\n", "a\n##!=< \u00a0\n##!=> \u00a0\n", "##!=> \u0085 \n", "##!> assemble\n  a\n  ##!=< \x0b \x0b\n  ##!=> \u2003\n##!<\n", "##!=>\t\x0c\n", "##!=< \x1c\n##!=> \x1c\n",
+	// a bare marker prefix that comes into being after the parser has looked at the lines
+	"##!> define marker ##!\n{{marker}}\nfoo\n", "##!> define m ##!>\n{{m}}\n", "##!> define m ##!<\nfoo\n{{m}}\n", "##!> define m ##!=>\na\n{{m}}\nb\n", "##!^ ##!\nfoo\n", "##!$ ##!\nfoo\nbar\n", "##!> include hashbang\n", "##!> define m ##\n{{m}}!\n",
 	// include cycles with a fan-out of two and more
 	"##!> include fz\n##!> include fz\n", "##!> include twice\n", "##!> include ping\n##!> include pong\n##!> include-except ping pong\n", "x\n##!> include fz -- a b\n##!> include-except fz ok\n##!> include fz\n",
 	// fragments of a byte order mark at the start of the input
@@ -94,6 +96,7 @@ func c19Check(env *core.Env, cc core.Case) core.Verdict {
 		"regex-assembly/include/pong.ra":  "##!> include ping\npongword\n",
 		"regex-assembly/include/twice.ra": "##!> include twice\n##!> include twice\nw\n",
 		"regex-assembly/include/marks.ra": "@\n~\nls@\nid~\n~@\n",
+		"regex-assembly/include/hashbang.ra": "##!^ ##!\n##!$ ##!\nword\n",
 	}
 	type inv struct {
 		args  []string
